@@ -141,7 +141,14 @@ Theorem C09_guarded_markdown_document_same : forall m title cmd conts lines code
   Forall (fun l => starts_with P_DOLLAR (expectation_line m l) = false) lines ->
   gen_md_doc_g m None title cmd conts lines code = gen_md_doc m title cmd conts lines code.
 Proof. exact gen_md_doc_g_same. Qed.
-(* .. and where a guard applies, what is written reads back as an escaped expectation for that very line *)
+(* .. and where the first guard applies, what is written reads back (expectation grammar) as an escaped expectation without quantifier
+   that matches the very line it was written for -- for every line; the premise is the one collision the second guard takes care of *)
+Theorem C09_guarded_line_reads_back : forall rp rc gn first cram m c rest line, out_line (c :: rest) line ->
+  (first && starts_with P_GT (written_line m line)) || (cram && starts_with P_DOLLAR (written_line m line)) = true ->
+  strip_suffix S_NOEOL ([92; 120; hexd (c / 16); hexd (c mod 16)] ++ skipn 4 (escaped_printable m (1 :: rest))) = None ->
+  exists r, parse rp rc gn (guarded_line first cram m line) = POk (mkE r false false) /\ rule_matches r line = true.
+Proof. exact guarded_line_reads_back. Qed.
+Print Assumptions C09_guarded_line_reads_back.
 Example C09_guard_instances :
   guarded_line true false Unicode [62; 32; 102; 10] = [92; 120; 51; 101; 32; 102] ++ S_ESCAPED                 (* > f   ->  \x3e f (escaped) *)
   /\ guarded_line false true Ascii [36; 32; 121; 10] = [92; 120; 50; 52; 32; 121] ++ S_ESCAPED                 (* $ y   ->  \x24 y (escaped) *)
